@@ -41,7 +41,7 @@ from workloads import lifecycle as lc
 from workloads import tables
 
 PROP = 'C02'
-BACKENDS = ['reference', 'dask-synchronous', 'dask-threads', 'dask-processes', 'pyfunc']
+BACKENDS = ['reference', 'dask-synchronous', 'dask-threads', 'dask-processes', 'pyfunc', 'pyfunc-repeated']
 REAL_QUEUE = dask.local.Queue
 
 
@@ -77,6 +77,18 @@ def run_backend(backend: str, symbols_factory: typing.Callable[[], typing.Any], 
             tables.interpret(symbols_factory())
         elif backend == 'pyfunc':
             pyfunc.Runner.run(symbols_factory())
+        elif backend == 'pyfunc-repeated':
+            # the serving runner keeps ONE expression and calls it per request: a failing call in between (an actor
+            # refusing its input somewhere inside the pipeline) must not change what the next call returns
+            expression = pyfunc.Expression(symbols_factory())
+            expression(None)
+            victim = stats.get('poison')
+            try:
+                expression(('POISON', victim))
+            except Exception:  # pylint: disable=broad-except
+                stats['poisoned_calls'] = stats.get('poisoned_calls', 0) + 1
+            tables._log('sink', '--- call after the failed one ---')  # pylint: disable=protected-access
+            expression(None)
         else:
             scheduler = backend.split('-', 1)[1]
             if scheduler == 'synchronous':
@@ -106,7 +118,7 @@ def case_w1(seed: int) -> dict:
     os.environ['C02_LOG'] = logfile
     if os.path.exists(logfile):
         os.unlink(logfile)
-    stats: dict = {}
+    stats: dict = {'poison': rng.choice([n['name'] for n in dag['nodes'][1:]])}
     results = {}
     for backend in BACKENDS:
         factory = lambda: list(flow.compile(tables.build_segment(dag)))  # noqa: E731
@@ -146,7 +158,7 @@ def case_w2(seed: int) -> dict:
         template = base_dir / 'template'
         pkg = lc.write_project(template / 'src', 'pa', '1', spec)
         asset.Directory(posix.Registry(template / 'registry', staging=template / 'staging')).get('pa').put(pkg)
-        for backend in BACKENDS[:-1]:  # pyfunc does not train; its apply-mode half is W1 and the C04 serve action
+        for backend in BACKENDS[:4]:  # pyfunc does not train; its apply-mode half is W1 and the C04 serve action
             root = base_dir / backend
             shutil.copytree(template, root)
             registry = posix.Registry(root / 'registry', staging=root / 'staging')
@@ -198,6 +210,14 @@ def judge(case: dict) -> list[dict]:
             out.append({'class': 'backend-crashed', 'backend': backend,
                         'detail': f'{backend} fails on a table the reference interpreter (and other backends) run: '
                                   f'{res["error"]}'})
+            continue
+        if backend == 'pyfunc-repeated':
+            marker = '--- call after the failed one ---'
+            after = res['sink'][res['sink'].index(marker) + 1:] if marker in res['sink'] else None
+            if after != ref['sink']:
+                out.append({'class': 'failed-call-leaks-into-next-call', 'backend': backend,
+                            'detail': f'one pyfunc expression, three calls (ok, failing inside the pipeline, ok): the third '
+                                      f'call delivered {str(after)[:160]} - reference {str(ref["sink"])[:160]}'})
             continue
         if case['kind'] == 'w1':
             if res['sink'] != ref['sink']:
